@@ -123,7 +123,7 @@ PROPS["C02"] = dict(
 LEVEL_TEXT["C02"] = "Exhaustive enumeration of shaped bit vectors x tail states x every selection structure, parameter value and nesting order, every rank r compared with the reference position lists."
 TECHNIQUE["C02"] = "bounded-exhaustive enumeration of inputs x configurations against a linear-scan reference model"
 
-EF_RULE = "case = (monotone sequence, upper bound u, builder); families: (a) ALL non-decreasing sequences of length <= N over 0..=M x several u; (b) (n,u) split probes n*2^k-1, n*2^k, n*2^k+1 for all k plus 2^63-1, 2^63, MAX-1, MAX with values spread to end exactly at u, all-0 and all-u; (c) n=0 and n=1 for u in {0,1,5,2^40,MAX-1,MAX}; (d) l=0 duplicate runs crossing word boundaries; (e) 4096+-1 / 8192+-1 elements (inventory quantum of the default selectors); (f) two clusters 2^20 / 2^40 apart; (g) clustered sequences of 66..260 (thorough 520) elements (head of 1 / 2 / n/2 / n-2 small values, the rest just below u; three clusters) so that runs of empty high-bit buckets span one or more whole 64-bit words of the upper-bits array; (h) size class: 40 000 and 70 001 (thorough also 22 000, 140 000) elements - a dense run followed by an outlier, two distant clusters, an arithmetic progression with a loose u - so that the selectors on the upper bits hold many inventory entries of the wider span classes; every case is run on 5-7 selection back-ends; non-trivial = at least two distinct values"
+EF_RULE = "case = (monotone sequence, upper bound u, builder); families: (a) ALL non-decreasing sequences of length <= N over 0..=M x several u; (b) (n,u) split probes n*2^k-1, n*2^k, n*2^k+1 for all k plus 2^63-1, 2^63, MAX-1, MAX with values spread to end exactly at u, all-0 and all-u; (c) n=0 and n=1 for u in {0,1,5,2^40,MAX-1,MAX}; (d) l=0 duplicate runs crossing word boundaries; (e) 4096+-1 / 8192+-1 elements (inventory quantum of the default selectors); (f) two clusters 2^20 / 2^40 apart; (g) clustered sequences of 66..260 (thorough 520) elements (head of 1 / 2 / n/2 / n-2 small values, the rest just below u; three clusters) so that runs of empty high-bit buckets span one or more whole 64-bit words of the upper-bits array; (i) 40 000-element sequences whose second inventory block of the upper bits spans exactly 2^16 - 1, 2^16, 2^16 + 1, 2^17 - 1, 2^17 + 1 bits; (h) size class: 40 000 and 70 001 (thorough also 22 000, 140 000) elements - a dense run followed by an outlier, two distant clusters, an arithmetic progression with a loose u - so that the selectors on the upper bits hold many inventory entries of the wider span classes; every case is run on 5-7 selection back-ends; non-trivial = at least two distinct values"
 PROPS["C03"] = dict(
     level="exploration",
     engine="E1",
@@ -153,7 +153,7 @@ PROPS["C09"] = dict(
     level="exploration",
     engine="E1",
     parts=[dict(bin="e1_rcl")],
-    rule="case = (list of strings, block size k); ALL sequences of length <= N over the short alphabet {\"\", a, ab, abc, abd, b, e-acute, e-acute a, U+10FFFF}; ALL sequences of length <= 4 (thorough 5) over 12 strings of multi-byte characters sharing their leading bytes (e-acute/e-grave, U+4E00/U+4E01, U+1F600/U+1F601, ...); all sequences of length <= 3 containing at least one of a^127, a^128, a^129 b (rear lengths crossing 127/128); sequences of length <= 2 (thorough 3) containing a^16511 or a^16512 c (crossing 16511/16512); the rear-length family [x^r, y] for EVERY r <= 1500 (thorough 40 000) and offsets with pairwise different bytes inside the 2-, 3- and 4-byte classes of the variable-byte code (thorough: a stride through the 3- and 4-byte classes and the 4/5-byte boundary, 270 MB strings); sorted word lists of 150 (thorough 600) strings with shared prefixes for k up to 64; sorted, unsorted and duplicate-bearing lists all occur; non-trivial = at least 2 strings",
+    rule="case = (list of strings, block size k); ALL sequences of length <= N over the short alphabet {\"\", a, ab, abc, abd, b, e-acute, e-acute a, U+10FFFF}; ALL sequences of length <= 4 (thorough 5) over 12 strings of multi-byte characters sharing their leading bytes (e-acute/e-grave, U+4E00/U+4E01, U+1F600/U+1F601, ...); ALL sequences of length <= 3 (thorough 4) over 12 words of 8 bytes and more that differ at several offsets of the same 8-byte word; all sequences of length <= 3 containing at least one of a^127, a^128, a^129 b (rear lengths crossing 127/128); sequences of length <= 2 (thorough 3) containing a^16511 or a^16512 c (crossing 16511/16512); the rear-length family [x^r, y] for EVERY r <= 1500 (thorough 40 000) and offsets with pairwise different bytes inside the 2-, 3- and 4-byte classes of the variable-byte code (thorough: a stride through the 3- and 4-byte classes and the 4/5-byte boundary, 270 MB strings); sorted word lists of 150 (thorough 600) strings with shared prefixes for k up to 64; sorted, unsorted and duplicate-bearing lists all occur; non-trivial = at least 2 strings",
     alphabet="k in {1,2,3,4,5} (sorted word lists also 8,16,64); probes: every alphabet string, proper prefixes/extensions, strings sorting before/between/after",
     bound={"quick": "N=6", "thorough": "N=7; rear lengths crossing 2 113 664 (third code boundary) with 2 MB strings"},
     oracle="Vec<String>: len, get(i), get_in_place(i) all i; iter/lend/into_lender/into_iter and iter_from(j)/lend_from(j)/into_iter_from(j) for every j in 0..=n with exact remaining length before every next; index_of(s) returns an index holding s iff s was pushed, contains agrees; get(n) panics",
